@@ -20,9 +20,12 @@ type c10Stream struct {
 	hdr   HdrSpec
 	recs  []RecSpec
 	recAt []int // offset of each record in the uncompressed stream (bam), plus the end
-	nval  int   // substitution values per position
-	count int   // enumerated faults of this stream
-	first int   // first run index of this stream
+	nval   int   // substitution values per position
+	count  int   // enumerated faults of this stream
+	first  int   // first run index of this stream
+	truncs []int // enumerated truncation lengths
+	subPos []int // enumerated substitution positions
+	big    bool
 }
 
 type c10Case struct {
@@ -77,7 +80,7 @@ func (p *c10) stream(i int) *c10Stream {
 	for len(p.streams) <= i {
 		j := len(p.streams)
 		t := NewTape(p.seed, "C10-stream", j)
-		s := &c10Stream{bam: j%2 == 1, nval: 10}
+		s := &c10Stream{bam: j%2 == 1, nval: 10, big: j%4 == 3}
 		if p.tier == "thorough" {
 			s.nval = 255
 		}
@@ -102,6 +105,14 @@ func (p *c10) stream(i int) *c10Stream {
 			s.hdr = genHdr(t)
 			for k, n := 0, 2+t.Draw("work", 8); k < n; k++ {
 				s.recs = append(s.recs, genRec(t, len(s.hdr.Refs), 0, k))
+			}
+			if s.big {
+				// one record larger than a BGZF block between small ones: the
+				// only way the writer puts a member end inside a record
+				s.recs = append(s.recs[:1], append([]RecSpec{genRec(t, len(s.hdr.Refs), 2, 100)}, s.recs[1:]...)...)
+				if len(s.recs) > 4 {
+					s.recs = s.recs[:4]
+				}
 			}
 			h, err := s.hdr.SamHeader()
 			if err != nil {
@@ -134,7 +145,31 @@ func (p *c10) stream(i int) *c10Stream {
 		if err != nil {
 			panic("c10: generated stream does not parse: " + err.Error())
 		}
-		s.count = len(s.img) + len(s.img)*s.nval
+		if !s.big {
+			for i := 0; i < len(s.img); i++ {
+				s.truncs = append(s.truncs, i)
+				s.subPos = append(s.subPos, i)
+			}
+		} else {
+			// a large stream: every position near a member boundary, the rest sampled
+			near := map[int]bool{}
+			for _, m := range s.flat.Members {
+				for d := -6; d <= 24; d++ {
+					if q := int(m.Off) + d; q >= 0 && q < len(s.img) {
+						near[q] = true
+					}
+				}
+			}
+			for i := 0; i < len(s.img); i++ {
+				if near[i] || i%211 == 0 {
+					s.truncs = append(s.truncs, i)
+				}
+				if near[i] || i%1021 == 0 {
+					s.subPos = append(s.subPos, i)
+				}
+			}
+		}
+		s.count = len(s.truncs) + len(s.subPos)*s.nval
 		if j > 0 {
 			s.first = p.streams[j-1].first + p.streams[j-1].count
 		}
@@ -158,12 +193,12 @@ func (p *c10) Gen(t *Tape, tier string, run int) interface{} {
 	i, s := p.locate(run)
 	k := run - s.first
 	c := &c10Case{Stream: i, BAM: s.bam, Trunc: -1, RD: t.Pick("work", 1, 2, 4), Procs: 2, Chunk: t.Pick("work", 0, 0, 2), Delay: t.Pick("work", 0, 0, 1), Kind: ReaderKinds[t.Draw("work", 2)]}
-	if k < len(s.img) {
-		c.Trunc = k
+	if k < len(s.truncs) {
+		c.Trunc = s.truncs[k]
 		return c
 	}
-	k -= len(s.img)
-	c.Pos = k / s.nval
+	k -= len(s.truncs)
+	c.Pos = s.subPos[k/s.nval]
 	v := k % s.nval
 	orig := int(s.img[c.Pos])
 	if s.nval == 10 {
